@@ -164,6 +164,11 @@ def case_analysis(run, P, b, T, succ):
             return ('S' if a[2] == 0 else 'A' if a[2] == 1 else None, neg)
         if nm.startswith('common::path::PathImpl::is_') and a and a[0] == 'call' and a[1].endswith('RiRefImpl::path') and a[2][0][:2] == ('arg', 1):
             return (nm.rsplit('::', 1)[-1], neg)
+        # tests of the BASE that the merge rule of RFC 3986 5.2.3 depends on (they put no constraint on the reference's path)
+        if (nm.endswith('Option::<T>::is_some') or nm.endswith('Option::<T>::is_none')) and a and a[0] == 'call' and a[1].endswith('RiRefImpl::authority') and a[2] and a[2][0][:2] == ('arg', 2):
+            return ('BA', neg != nm.endswith('is_none'))
+        if nm == 'common::path::PathImpl::is_empty' and a and a[0] == 'call' and a[1].endswith('RiRefImpl::path') and a[2] and a[2][0][:2] == ('arg', 2):
+            return ('BE', neg)
         # any other test that looks at the reference's PATH is unknown to the case analysis (fail closed); tests of its query / fragment or of
         # the base only select sub-cases and put no constraint on the path
         if any(isinstance(x, tuple) and x and x[0] == 'call' and x[1].endswith('RiRefImpl::path') and x[2] and x[2][0][:2] == ('arg', 1) for x in terms.walk(t)):
@@ -220,6 +225,66 @@ def case_analysis(run, P, b, T, succ):
             else:
                 env.pop(t['dest']['local'], None)
         return env
+    def merge_rule(path, d):
+        """RFC 3986 5.2.3 on one CFG path that merges: the buffer the reference's segments are appended to starts as "/" exactly when the base
+        has an authority and an empty path, and as the base path without its last segment otherwise; the reference's own segments are
+        appended to THAT buffer, whose path becomes the path of the result"""
+        out = []
+        temp_sets, appends, finals = [], [], []
+        # terms as seen on THIS path: only the definitions made in its blocks (a value chosen by an earlier branch is then the one of this path)
+        TP = terms.Terms(b)
+        on_path = set(path)
+        TP.defs = {l: [dd for dd in ds if dd[1] in on_path] for l, ds in TP.defs.items()}
+        TP.memo = {}
+        for bi in path:
+            tt = b['blocks'][bi]['term']
+            if tt['k'] != 'call' or not tt['args']:
+                continue
+            c = mir.callee(tt) or ''
+            recv = TP.operand(tt['args'][0])
+            if c.endswith('::set_path') and len(tt['args']) == 2:
+                src = TP.operand(tt['args'][1])
+                if recv[:2] == ('arg', 1):
+                    finals.append(src)
+                else:
+                    if src[0] == 'item' and src[1].endswith('EMPTY_ABSOLUTE'):
+                        k = 'root'
+                    elif src[0] == 'call' and src[1].endswith('::parent_or_empty') and src[2] and src[2][0][0] == 'call' and src[2][0][1].endswith('RiRefImpl::path') and src[2][0][2][0][:2] == ('arg', 2):
+                        k = 'dir'
+                    else:
+                        k = 'other'
+                    temp_sets.append((k, recv, len(appends)))
+            elif c.endswith('::symbolic_append') and len(tt['args']) == 2:
+                appends.append((recv, TP.operand(tt['args'][1])))
+        if len(appends) != 1:
+            return [f'{len(appends)} calls of symbolic_append on the path (1 expected)']
+        recv, arg = appends[0]
+        if not (recv[0] == 'call' and recv[1].endswith('::path_mut') and recv[2]):
+            return ['symbolic_append is not applied to the path handle of a buffer']
+        temp = recv[2][0]
+        if temp[:2] == ('arg', 1):
+            return ['the segments are appended to the reference itself, not to a copy of the base directory']
+        if not (arg[0] == 'call' and arg[1].endswith('PathImpl::segments') and arg[2] and arg[2][0][0] == 'call' and arg[2][0][1].endswith('RiRefImpl::path') and arg[2][0][2][0][:2] == ('arg', 1)):
+            out.append("what is appended is not segments() of the reference's own path")
+        before = [k for (k, r, n_app) in temp_sets if r == temp and n_app == 0]
+        if len(before) != 1:
+            return out + [f'before the append the path of the merge buffer is set {len(before)} times (once expected)']
+        k = before[0]
+        ba, be = d.get('BA'), d.get('BE')
+        if k == 'root':
+            if not (ba is True and be is True):
+                out.append('the merge starts from "/" on a path where it is not established that the base has an authority AND an empty path' +
+                           (' (the authority of the base is not tested)' if ba is None else ' (the path of the base is not tested)' if be is None else ''))
+        elif k == 'dir':
+            if ba is True and be is True:
+                out.append('the merge starts from the base path without its last segment although the base has an authority and an empty path ("/" expected)')
+            elif not (ba is False or be is False):
+                out.append('the merge starts from the base path without its last segment on a path where the case "authority and empty path" of the base is not excluded')
+        else:
+            out.append('the merge buffer does not start from "/" or from parent_or_empty() of the base path')
+        if not any(f[0] == 'call' and f[1].endswith('RiRefImpl::path') and f[2] and f[2][0] == temp for f in finals):
+            out.append('the path of the result is not the path of the merge buffer')
+        return out
     stack = [(0, (0,), [], {})]
     while stack:
         bb, path, asm, env = stack.pop()
@@ -259,6 +324,10 @@ def case_analysis(run, P, b, T, succ):
                 continue          # contradictory guards: not a feasible path
             key = ('scheme' if S else 'authority' if A else 'neither') if S is not None else 'neither'
             acts.setdefault((key, kind), []).append(L)
+            if kind == 'merge':
+                run.count('merge_paths')
+                for pr in merge_rule(path, dict(asm)):
+                    run.violation(f'merge|{pr[:80]}', f'{P.where(b)} resolve, merge branch (RFC 3986 5.2.3): {pr}')
             continue
         if t['k'] == 'switch':
             v = None
@@ -291,6 +360,7 @@ def case_analysis(run, P, b, T, succ):
             if s2 not in path and len(path) < 400:
                 stack.append((s2, path + (s2,), asm, env))
     run.count('case_paths', npaths)
+    run.floor('merge_paths', 2, 'CFG paths of resolve that merge the reference path with the base path')
 
     def union(ls):
         if not ls:
